@@ -14,7 +14,7 @@ import (
 // API-level state).  Validated against CircularQueue.tla by CircularQueueTrace.
 func RunCQ(r *rt.Run) error {
 	t := r.NewTrace("cq")
-	length := 7
+	length := 6
 	inits := []int{0, 1, 4, 5}
 	deqs := []int{1, 2, 100}
 	if r.Thorough() {
